@@ -29,6 +29,11 @@ import (
 // kills itself.
 const Bound = 6 * time.Second
 
+// BoundCPU is the bound for entry points that only compute on a small input (parsers): still three
+// to six orders of magnitude above what such a call takes, and short enough that a runaway loop that
+// also allocates cannot exhaust memory before it is reported.
+const BoundCPU = 2 * time.Second
+
 // Outcome is what a guarded call did.
 type Outcome struct {
 	Panic any           // recovered value, nil if none
@@ -121,7 +126,7 @@ func Describe(o Outcome) string {
 	case o.Panic != nil:
 		return fmt.Sprintf("panic: %v (top frame of the code under test: %s)", o.Panic, TopFrame(o.Stack))
 	case o.Hung:
-		return fmt.Sprintf("did not return within %v", Bound)
+		return fmt.Sprintf("did not return within the per-input bound (gave up after %v)", o.Dur.Round(time.Millisecond))
 	}
 	return "returned"
 }
@@ -222,8 +227,31 @@ func Report(t vh.Fataler, rec *vh.Rec, sub, entry string, c any, digest [8]byte,
 	if key == "" {
 		return true
 	}
+	if o.Hung {
+		// The runaway goroutine cannot be stopped and may allocate without bound; shrinking or
+		// minimising would only start more of them. Record the violation and leave the process.
+		if rec.ViolationNoFatal(key, c, "%s: %s", entry, Describe(o)) {
+			FlushAll()
+			fmt.Printf("VERIF-VIOLATION property=C11 sub=%s key=%s: %s: %s (process exits: the hung call cannot be stopped)\n", sub, key, entry, Describe(o))
+			os.Exit(1)
+		}
+		return false
+	}
 	rec.Violation(t, key, c, "%s: %s", entry, Describe(o))
 	return false
+}
+
+// FlushAll writes every recorder of this process.
+func FlushAll() {
+	recMu.Lock()
+	var all []*vh.Rec
+	for _, r := range recs {
+		all = append(all, r)
+	}
+	recMu.Unlock()
+	for _, r := range all {
+		r.Flush()
+	}
 }
 
 // Source says where the current case comes from (class label).
@@ -247,6 +275,11 @@ func CorpusDir() string { return os.Getenv("VERIF_C11_WRITE_CORPUS") }
 // is the argument list of the fuzz function after *testing.T; supported types: []byte, string,
 // uint16, uint32, uint64, int, bool.
 func WriteCorpus(target string, seeds [][]any) error {
+	return WriteCorpusNamed(target, "seed", seeds)
+}
+
+// WriteCorpusNamed is WriteCorpus with a file name prefix (several producers for one target).
+func WriteCorpusNamed(target, prefix string, seeds [][]any) error {
 	dir := CorpusDir()
 	if dir == "" {
 		return nil
@@ -278,7 +311,7 @@ func WriteCorpus(target string, seeds [][]any) error {
 				return fmt.Errorf("WriteCorpus: unsupported seed type %T", a)
 			}
 		}
-		name := fmt.Sprintf("seed-%03d", i)
+		name := fmt.Sprintf("%s-%03d", prefix, i)
 		if err := os.WriteFile(filepath.Join(d, name), []byte(sb.String()), 0o644); err != nil {
 			return err
 		}
